@@ -91,6 +91,13 @@ fn a(x: int) -> int { b(x) + 1 }
 fn main() { let n = 0; loop { n = a(n); } }`},
 	{name: "throw-catch-loop", endless: true, check: noOutput, src: `
 fn main() { let n = 0; loop { try { throw("x"); } catch e { n = n + 1; } } }`},
+	// wave 14: the exception leaves a callee frame on every turn (the unwinding path of Core.Run differs from the same-frame path)
+	{name: "throw-in-callee-catch-loop", endless: true, check: noOutput, src: `
+fn fail() { throw("nope"); }
+fn main() { loop { try { fail(); } catch e {} } }`},
+	{name: "throw-in-callee-catch-while", endless: true, check: noOutput, src: `
+fn fail(n: int) -> int { if n >= 0 { throw("nope"); } n }
+fn main() { let n = 0; while true { try { n = fail(n); } catch e { n = n + 1; } } }`},
 	{name: "loop-in-try", endless: true, check: noOutput, src: `
 fn main() { try { loop { let a = 1; } } catch e { println("caught"); } println("after"); }`},
 	{name: "loop-in-catch", endless: true, check: noOutput, src: `
